@@ -118,10 +118,19 @@ def check_include(col, rng):
         inc = gen_doc(rng, allow=["para", "bullet", "fence", "quote"])
         open(os.path.join(d, "inc.md"), "w").write(inc.text)
         pre = rng.randint(0, 3)
-        main = "# Main\n\n" + "filler\n\n" * pre + "```{include} inc.md\n```\n\nafter marker\n"
+        # (with and without a heading / other directive in front of the include: the include may be the first directive of
+        #  the document; a warning raised by the HOST file after the include must name the host file and its own line)
+        head = rng.choice(["# Main\n\n", "", "```{note}\nn\n```\n\n"])
+        main = head + "filler\n\n" * pre + "```{include} inc.md\n```\n\nafter marker\n\nhost {nosuchrole_c04}`x` warns\n"
         src = os.path.join(d, "index.md")
         doc, lines = parse(main, OV, source_path=src)
         case = {"include": inc.text, "main": main}
+        host_line = main.count("\n", 0, main.index("host {nosuchrole_c04}")) + 1
+        for ln in lines:
+            if "nosuchrole_c04" in ln:
+                mm = re.match(r"(.*?):(\d+): \(", ln)
+                if mm and (not mm.group(1).endswith("index.md") or int(mm.group(2)) != host_line):
+                    col.fail("C04.after-include-warning", case, f"warning of the host file after the include is reported at {mm.group(1)}:{mm.group(2)}; expected index.md:{host_line}")
         for b in inc.blocks:
             tags = KIND_TAG.get(b["kind"])
             if not tags:
@@ -135,7 +144,7 @@ def check_include(col, rng):
             if n.source is None or not str(n.source).endswith("inc.md"):
                 col.fail("C04.include-source", dict(case, marker=b["marker"]), f"included node source is {n.source!r}, expected the included file")
         aft = node_for(doc, "after marker", ("paragraph",))
-        want = 3 + 2 * pre + 3
+        want = main.count("\n", 0, main.index("after marker")) + 1
         if aft is not None and (aft.line != want or not str(aft.source).endswith("index.md")):
             col.fail("C04.after-include", case, f"paragraph after the include has line {aft.line} source {aft.source}; expected line {want} of index.md")
     finally:
